@@ -17,6 +17,8 @@
 
 #include <thread>
 
+#include <unifex/detail/verif_hooks.hpp>
+
 #include <unifex/detail/prologue.hpp>
 
 namespace unifex {
@@ -26,6 +28,7 @@ public:
   spin_wait() noexcept = default;
 
   void wait() noexcept {
+    UNIFEX_VERIF_SPIN("spin_wait");
     if (count_++ < yield_threshold) {
       // TODO: _mm_pause();
     } else {
